@@ -282,8 +282,13 @@ def gen_case(rng, stratum, pairing, tier='quick', delays=None, adversary=None, u
                                   shape=rng.choice(['fork', 'layered', 'diamond']))
         if st == 'zero' and rng.random() < 0.4:
             wf = gen_workflow(rng, machines, nmax=1, zero_bias=0.5)
-        obs.append({'name': 'o%d' % i, 'start': start, 'duration': dur, 'demand': demand,
-                    'rate': rate, 'ingest_demand': ing, 'workflow': wf})
+        ob = {'name': 'o%d' % i, 'start': start, 'duration': dur, 'demand': demand,
+              'rate': rate, 'ingest_demand': ing, 'workflow': wf}
+        if rng.random() < 0.12:
+            ob['min_workflow_resources'] = rng.randint(1, max(1, n // 2))
+            if rng.random() < 0.5:
+                ob['max_workflow_resources'] = rng.randint(ob['min_workflow_resources'], n)
+        obs.append(ob)
         t = start + (dur if st not in ('simul',) else rng.choice([0, dur]))
         if same_start:
             t = start
@@ -334,11 +339,12 @@ def gen_case(rng, stratum, pairing, tier='quick', delays=None, adversary=None, u
         lo = 0 if rng.random() < (0.15 if tier == 'quick' else 0.3) else 1
         minres = rng.randint(lo, share) if share >= lo else share
         alg = {'partitions': parts, 'min_resources': minres}
-        if rng.random() < 0.15:
+        if rng.random() < 0.3:
             split = {}
             for o in obs:
                 mn = rng.randint(1, max(1, min(n, share)))
-                mx = rng.randint(max(mn, minres, 1), n)     # a maximum below the global
+                # a maximum may exceed what is free (or even the cluster): it is only a cap
+                mx = rng.randint(max(mn, minres, 1), n + 3)   # a maximum below the global
                 split[o['name']] = [mn, mx]                 # minimum would be contradictory
             alg['resource_split'] = split
     static = None
@@ -502,8 +508,12 @@ def materialise(case, d):
         with open(os.path.join(d, fn), 'w') as f:
             json.dump(workflow_json(o['workflow']), f)
         pipelines[o['name']] = {'workflow': fn, 'ingest_demand': o['ingest_demand']}
-        observations.append({'name': o['name'], 'start': o['start'], 'duration': o['duration'],
-                             'instrument_demand': o['demand'], 'data_product_rate': o['rate']})
+        entry = {'name': o['name'], 'start': o['start'], 'duration': o['duration'],
+                 'instrument_demand': o['demand'], 'data_product_rate': o['rate']}
+        for key in ('min_workflow_resources', 'max_workflow_resources'):
+            if o.get(key) is not None:
+                entry[key] = o[key]       # optional keys of the configuration format
+        observations.append(entry)
     cfg = {
         'instrument': {'telescope': {
             'total_arrays': case['telescope']['total_arrays'],
